@@ -244,11 +244,9 @@ func definitelyNonNil(v ssa.Value, depth int) bool {
 	case *ssa.Call:
 		if f := v.Common().StaticCallee(); f != nil && f.Blocks != nil && f.Signature.Results().Len() == 1 {
 			ok := true
-			for _, b := range f.Blocks {
-				if r, isRet := b.Instrs[len(b.Instrs)-1].(*ssa.Return); isRet {
-					if !definitelyNonNil(r.Results[0], depth+1) {
-						ok = false
-					}
+			for _, r := range returnsOf(f) {
+				if !definitelyNonNil(r.Results[0], depth+1) {
+					ok = false
 				}
 			}
 			return ok
